@@ -347,6 +347,11 @@ def cli_deps(ctx):
     if fm_ is not None:
         c05.offset_rule(dep(ctx, "C03", "C05"), fm_)
         c14.size_rule(dep(ctx, "C03", "C14"), fm_)
+    # "the header matches the columns" presupposes that the header line is there whenever it was asked for: written
+    # once, under `self.header` alone, on every normally-ending path of both writers
+    fb_ = ctx.view(c05.BATCH)
+    if fb_ is not None and fm_ is not None:
+        c05.header_rule(dep(ctx, "C03", "C05"), fb_, fm_)
 
 
 def header_line_rule(ctx):
